@@ -27,6 +27,7 @@ class FlexSpec:
         lines = self.text.split('\n')
         sec = 0
         in_block = False
+        pending = None
         for i, ln in enumerate(lines, 1):
             if ln.strip() == '%%':
                 sec += 1
@@ -54,14 +55,55 @@ class FlexSpec:
                     raise AnalysisBroken('lexer.l:%d cannot parse definition' % i)
                 self.defs[m.group(1)] = m.group(2)
             elif sec == 1:
+                if pending is not None:
+                    # continuation of a brace-delimited action spanning several lines
+                    pending['action'] += '\n' + ln
+                    if self._balanced(pending['action']):
+                        pending = None
+                    continue
                 if not ln.strip():
                     continue
                 if ln[0] in ' \t':
                     raise AnalysisBroken('lexer.l:%d indented code in the rules section is not supported' % i)
                 pat, act = self._split_rule(ln, i)
                 self.rules.append({'pattern': pat, 'action': act.strip(), 'line': i})
+                if not self._balanced(act):
+                    pending = self.rules[-1]
+        if pending is not None:
+            raise AnalysisBroken('lexer.l:%d action is not closed' % pending['line'])
         if sec < 1 or not self.rules:
             raise AnalysisBroken('lexer.l: no rules section')
+
+    @staticmethod
+    def _balanced(act):
+        """braces balanced outside character/string literals and comments"""
+        depth = 0
+        i = 0
+        n = len(act)
+        while i < n:
+            c = act[i]
+            if c == '/' and act[i:i + 2] == '/*':
+                j = act.find('*/', i + 2)
+                if j < 0:
+                    return False
+                i = j + 2
+                continue
+            if c == '/' and act[i:i + 2] == '//':
+                j = act.find('\n', i)
+                i = n if j < 0 else j
+                continue
+            if c in '"\'':
+                j = i + 1
+                while j < n and act[j] != c:
+                    j += 2 if act[j] == '\\' else 1
+                i = j + 1
+                continue
+            if c == '{':
+                depth += 1
+            elif c == '}':
+                depth -= 1
+            i += 1
+        return depth == 0
 
     def _split_rule(self, ln, lineno):
         i = 0
@@ -88,6 +130,9 @@ class FlexSpec:
         a = rule['action'].replace(' ', '')
         if a in ('{}', ''):
             return None
+        body = re.sub(r'/\*.*?\*/', '', rule['action'], flags=re.S)
+        if 'TOK' not in body and 'return' not in body and 'ret' not in re.findall(r'[A-Za-z_]+', body):
+            return None      # code that neither returns nor produces a token: a skip with bookkeeping
         m = re.fullmatch(r'\{TOK\(Theo::Token::(?:Type::)?([A-Za-z_0-9]+)\);?\}', a)
         if m:
             return m.group(1)
@@ -360,6 +405,28 @@ def rule_language(spec, idx, limit=200):
     if dfs(0, [], {0}) is False:
         return None
     return sorted(set(out))
+
+
+def eol_witness(spec, idx, dfa=None):
+    """a string containing a newline that the scanner returns as one match of rule idx (when followed by end of input),
+    or None when rule idx can never win with a newline inside its match"""
+    d = dfa or build(spec)
+    seen = {(0, False): b''}
+    work = [(0, False)]
+    while work:
+        s0, nl = work.pop(0)
+        path = seen[(s0, nl)]
+        if nl and d.accept[s0] == idx:
+            return path
+        for b in range(1, 256):
+            t = d.delta[s0][b]
+            if t < 0:
+                continue
+            key = (t, nl or b == 10)
+            if key not in seen:
+                seen[key] = path + bytes([b])
+                work.append(key)
+    return None
 
 
 # ----------------------------------------------------------------------------- flex table decoder
